@@ -142,11 +142,22 @@ def siblings(ctx):
     r = ctx.rule('C09-SIBLINGS', 'the query entry points share one pipeline', floor=8, oracle='sibling agreement')
     so = repo.func(M + 'MetaClass.select_one')
     sm = repo.func(M + 'MetaClass.select_many')
-    r.check(pm.match_canon(['_S = apply_query_operators(self.storage, args)', 'return next(iter(_S), None)'], body_without_doc(so)) is not None,
+    # abstract execution: what is returned, in terms of the pipeline result
+    PIPE = 'apply_query_operators(self.storage, args)'
+    oi = absint.Interp(so, [])
+    oi.pure_calls = {'apply_query_operators'}
+    o1, _ = oi.run({})
+    r.check(o1.kind == 'return' and o1.value is not None and pm.match('next(iter(%s), None)' % PIPE, o1.value) is not None,
             'select_one: pipeline over the pool, first element or None', so, construct=M + 'MetaClass.select_one', key='select_one',
             msg='select_one is not `next(iter(apply_query_operators(self.storage, args)), None)`')
-    r.check(pm.match_canon(['_S = apply_query_operators(self.storage, args)',
-                      'if isinstance(_S, QuerySet):\n    return _S\nelse:\n    return QuerySet(_S)'], body_without_doc(sm)) is not None,
+    ok = True
+    for is_qs in (True, False):
+        mi = absint.Interp(sm, [('isinstance(_X, QuerySet)', lambda e, s, tr: s['qs'] if pm.match(PIPE, e['_X']) is not None else None)])
+        mi.pure_calls = {'apply_query_operators', 'QuerySet'}
+        o2, _ = mi.run({'qs': is_qs})
+        want = PIPE if is_qs else 'QuerySet(%s)' % PIPE
+        ok = ok and o2.kind == 'return' and o2.value is not None and pm.match(want, o2.value) is not None
+    r.check(ok,
             'select_many: same pipeline, wrapped in a QuerySet', sm, construct=M + 'MetaClass.select_many', key='select_many',
             msg='select_many is not `QuerySet(apply_query_operators(self.storage, args))`')
     nc = repo.func(M + 'NavChain.__call__')
@@ -172,7 +183,8 @@ def siblings(ctx):
         r.check(pm.contains('return %s(_X)' % cls, fn), '%s starts a %s' % (fname, cls), fn, construct=M + fname, key='start',
                 msg='%s does not return %s(...)' % (fname, cls))
     fn = repo.func(M + 'navigate_one')
-    r.check(pm.contains('return navigate_any(instance)', fn), 'navigate_one = navigate_any', fn, construct=M + 'navigate_one', key='start',
+    r.check(pm.contains('return navigate_any(instance)', fn) or pm.contains('return NavOneChain(instance)', fn), 'navigate_one = navigate_any', fn,
+            construct=M + 'navigate_one', key='start',
             msg='navigate_one does not delegate to navigate_any')
 
 
